@@ -1560,6 +1560,28 @@ func (s *SQLStore) RegisterAttempt(ctx context.Context,
 	return mpPayment, nil
 }
 
+// assertAttemptOfPayment makes sure the given attempt ID belongs to the given
+// payment. The resolution tables are keyed by the globally unique attempt index
+// only, so without this check an attempt of another payment could be resolved.
+func assertAttemptOfPayment(ctx context.Context, db SQLQueries,
+	paymentID int64, attemptID uint64) error {
+
+	attempts, err := db.FetchHtlcAttemptsForPayments(
+		ctx, []int64{paymentID},
+	)
+	if err != nil {
+		return fmt.Errorf("failed to fetch HTLC attempts: %w", err)
+	}
+
+	for _, a := range attempts {
+		if a.AttemptIndex == int64(attemptID) {
+			return nil
+		}
+	}
+
+	return fmt.Errorf("HTLC with ID %v not registered", attemptID)
+}
+
 // SettleAttempt marks the specified HTLC attempt as successfully settled,
 // recording the payment preimage and settlement time. The preimage serves as
 // cryptographic proof of payment and is atomically saved to the database.
@@ -1589,6 +1611,13 @@ func (s *SQLStore) SettleAttempt(ctx context.Context, paymentHash lntypes.Hash,
 
 		if err := paymentStatus.updatable(); err != nil {
 			return fmt.Errorf("payment is not updatable: %w", err)
+		}
+
+		err = assertAttemptOfPayment(
+			ctx, db, dbPayment.GetPayment().ID, attemptID,
+		)
+		if err != nil {
+			return err
 		}
 
 		err = db.SettleAttempt(ctx, sqlc.SettleAttemptParams{
@@ -1665,6 +1694,13 @@ func (s *SQLStore) FailAttempt(ctx context.Context, paymentHash lntypes.Hash,
 		// attempt.
 		if err := paymentStatus.updatable(); err != nil {
 			return fmt.Errorf("payment is not updatable: %w", err)
+		}
+
+		err = assertAttemptOfPayment(
+			ctx, db, dbPayment.GetPayment().ID, attemptID,
+		)
+		if err != nil {
+			return err
 		}
 
 		var failureMsg bytes.Buffer
